@@ -91,43 +91,39 @@ LexLines(ls, k, acc, pend) ==
   ELSE LET toks == LexLine(ls[k], 1, <<>>)
            evs == [j \in 1..Len(toks) |-> TokEvent(toks[j])]
        IN IF toks = <<>> THEN LexLines(ls, k + 1, acc, pend + 1)
-          ELSE LexLines(ls, k + 1, (IF acc # <<>> /\ pend > 0 THEN Append(acc, [e |-> "nl", n |-> 1]) ELSE acc) \o evs, 1)
+          ELSE LexLines(ls, k + 1, (IF acc # <<>> /\ pend > 0 THEN Append(acc, [e |-> "nl", n |-> 1]) ELSE acc)
+                                   \o (IF evs[1].e = "sp" THEN Tail(evs) ELSE evs), 1)
 IsDelim(x, t) == x.e = "delim" /\ x.txt = t
-(* the chain part: from the first operand to the last operand before the array's last comma *)
-RelexChain(ls) ==
+(* Model-level convergence over the WHOLE array (as in DotChainMC): the rendered text is re-lexed, the chain's events
+   become one item laid out again, everything else — separator, `z9`, trailing comma, the line feeds of the first pass —
+   goes to the array's own stylist with the flavor re-derived from the first white space. *)
+RelexArray(ls, w) ==
   LET all == LexLines(ls, 1, <<>>, 0)
-      commas == {i \in 1..Len(all) : IsDelim(all[i], ",")}
-      lastComma == CHOOSE i \in commas : \A j \in commas : j <= i      \* the separator before z9 (or the trailing comma)
-      z == CHOOSE i \in 1..Len(all) : IsDelim(all[i], "z9")
-      sepComma == CHOOSE i \in commas : i < z /\ \A j \in commas : j < z => j <= i
-      opds == {i \in 1..(sepComma - 1) : all[i].e = "opd"}
-      first == CHOOSE i \in opds : \A j \in opds : i <= j
-      last == CHOOSE i \in opds : \A j \in opds : j <= i
-  IN SubSeq(all, first, last)
-(* trivia between the last operand and the comma belongs to the array, not to the chain: the second layout is
-   compared on the chain's own lines only when there is none — i.e. for chains whose last operand is directly
-   followed by the separator in the first layout *)
-TrailingTrivia(ls) ==
-  LET all == LexLines(ls, 1, <<>>, 0)
-      z == CHOOSE i \in 1..Len(all) : IsDelim(all[i], "z9")
-      commas == {i \in 1..Len(all) : IsDelim(all[i], ",") /\ i < z}
-      sepComma == CHOOSE i \in commas : \A j \in commas : j <= i
-      opds == {i \in 1..(sepComma - 1) : all[i].e = "opd"}
-      last == CHOOSE i \in opds : \A j \in opds : j <= i
-  IN last + 1 # sepComma
-OutOfChain(sq, w) ==
-  LET arr == << [e |-> "item", txt |-> "", doc |-> ChainDoc(sq, Unit)], [e |-> "comma"], [e |-> "sp"], [e |-> "item", txt |-> "z9"] >>
-  IN Format(Whole(ListDoc(ArrCfg, arr)), w)
-(* the re-lexed array may be broken (flavor = never) where the source array was not; convergence of the whole is
-   the real code's business (R03 on these behaviours); at model level the chain itself must be re-laid out the same
-   whenever the array stayed on the chain's lines: compare only when the first layout did not break the array *)
+      opens == {i \in 1..Len(all) : IsDelim(all[i], "(")}
+      open == CHOOSE i \in opens : \A j \in opens : i <= j
+      closes == {i \in 1..Len(all) : IsDelim(all[i], ")")}
+      close == CHOOSE i \in closes : \A j \in closes : j <= i
+      inner == SubSeq(all, open + 1, close - 1)
+      opds == {i \in 1..Len(inner) : inner[i].e = "opd"}
+      f == CHOOSE i \in opds : \A j \in opds : i <= j
+      z == CHOOSE i \in 1..Len(inner) : IsDelim(inner[i], "z9")
+      commas == {i \in 1..Len(inner) : IsDelim(inner[i], ",") /\ i < z}
+      sep == CHOOSE i \in commas : \A j \in commas : j <= i
+      ends == {i \in f..(sep - 1) : inner[i].e = "opd"}
+      l == CHOOSE i \in ends : \A j \in ends : j <= i
+      map(x) == IF IsDelim(x, ",") THEN [e |-> "comma"] ELSE IF IsDelim(x, "z9") THEN [e |-> "item", txt |-> "z9"] ELSE x
+      rest == SubSeq(inner, l + 1, Len(inner))
+  IN SubSeq(inner, 1, f - 1) \o << [e |-> "item", txt |-> "", doc |-> ChainDoc(SubSeq(inner, f, l), Unit)] >>
+     \o [i \in 1..Len(rest) |-> map(rest[i])]
+Out2(w) == LET arr == RelexArray(Out(w), w) IN Format(Whole(ListDoc(CfgOf("array", arr, Unit), arr)), w)
+InvConvergence == done => \A w \in 0..MaxW : Out2(w) = Out(w)
 ArrayFlat(ls) == \E i \in 1..Len(ls) : Occurs(ls[i], ", z9)") # {}
-InvConvergence == done => \A w \in 0..MaxW :
-                     (ArrayFlat(Out(w)) /\ ~TrailingTrivia(Out(w))) => OutOfChain(RelexChain(Out(w)), w) = Out(w)
+TrailingTrivia(ls) == FALSE
 
 (* reachability probe for the antecedent of InvConvergence (must be VIOLATED: bin/selftest) *)
 ProbeConvergenceVacuous == done => \A w \in 0..MaxW : ~(ArrayFlat(Out(w)) /\ ~TrailingTrivia(Out(w)))
 
+AsFoundF27 == {"F27"}
 Gen == (done /\ GenOn) => PrintT(<<"GEN", ToJson([inst |-> "chain", unit |-> Unit, seq |-> seq,
                                                  pred |-> [w \in 0..MaxW |-> Out(w)]])>>)
 =============================================================================
